@@ -233,4 +233,7 @@ pub struct Scenario {
     pub drop_sr_when_done: bool,
     /// properties this scenario is aimed at (informational)
     pub aims: Vec<String>,
+    /// both applications cooperate (free of circular waits, everything read and released):
+    /// the progress rule (C06) applies
+    pub coop: bool,
 }
